@@ -5,6 +5,8 @@
 # usage: tools/benign_regress.sh [name-prefix] [check ...]      (uses $VERIF_DIR, default /verif)
 V=${VERIF_DIR:-/verif}
 export GOFLAGS=-mod=mod GOPROXY=off GOSUMDB=off GOTOOLCHAIN=local
+# runs against changed copies must not overwrite the evidence of the tree under check
+export VERIF_EVIDENCE_DIR=${VERIF_EVIDENCE_DIR:-/tmp/benign_evidence.$$}; trap 'rm -rf /tmp/benign_evidence.$$' EXIT
 P=${1:-}; [ $# -gt 0 ] && shift
 CHECKS=${*:-C01 C02 C03 C04 C05 C06 C07 C08 C09 C10 C11 C12 C13 C14 C15 C16 C17 C18 C19 C20}
 bad=0; n=0
